@@ -697,6 +697,20 @@ func (e *Engine) GuardedAccessFunctions(prop string) []*ssa.Function {
 					found = true
 				}
 			}
+			// ... or calls a helper whose contract demands a lock ("...WithoutLock")
+			for _, in := range b.Instrs {
+				if ci, ok := in.(ssa.CallInstruction); ok {
+					if callee := ci.Common().StaticCallee(); callee != nil {
+						if fc := e.contractOf(callee); fc != nil {
+							for _, c := range fc.Requires {
+								if isLockPrecondition(c) {
+									found = true
+								}
+							}
+						}
+					}
+				}
+			}
 		}
 		if found {
 			out = append(out, f)
